@@ -179,7 +179,9 @@ def gen_tree(rng, feats=None):
         elif kind == "dangling":
             dest = rng.choice(["nothing-here", "../nowhere/x.txt", "/no/such/member", "a.txt/not-a-dir"])
         elif kind == "escape":
-            dest = "../" * (d.count("/") + (2 if d else 1)) + rng.choice(["outside.txt", "etc/passwd", "nowhere"])
+            # climbs above the archive root; the name it then asks for may well exist INSIDE the archive
+            tops = [f for f in files if "/" not in f]
+            dest = "../" * (d.count("/") + (2 if d else 1)) + rng.choice(["outside.txt", "etc/passwd", "nowhere"] + tops[:3])
         elif kind == "chain":
             prev = [e for e in ents if e["kind"] == "link"]
             if not prev:
